@@ -71,6 +71,24 @@ fn text_of(c: &Value, k: &str) -> String {
     }
 }
 
+/// the text of a value through the entry point of its own kind (format_term / format_sentence / format_task)
+fn enum_text_by_kind(fmt: &str, v: &en::Narsese) -> String {
+    let f = enum_format(fmt);
+    match v {
+        en::Narsese::Term(t) => f.format_term(t),
+        en::Narsese::Sentence(x) => f.format_sentence(x),
+        en::Narsese::Task(x) => f.format_task(x),
+    }
+}
+fn lex_text_by_kind(fmt: &str, v: &lx::Narsese) -> String {
+    let f = lex_format(fmt);
+    match v {
+        lx::Narsese::Term(t) => f.format_term(t),
+        lx::Narsese::Sentence(x) => f.format_sentence(x),
+        lx::Narsese::Task(x) => f.format_task(x),
+    }
+}
+
 fn enum_parse(fmt: &str, s: &str) -> Value {
     let f = enum_format(fmt);
     res(guarded(|| f.parse::<en::Narsese>(s)), narsese_to)
@@ -209,7 +227,8 @@ pub fn run(c: &Value) -> Value {
                 Err(p) => return json!({"format":"panic","msg":p}),
             };
             let (r, _) = lex_parse(fmt, &s);
-            json!({"format":"ok","s":s,"r":r})
+            let same = guarded(|| lex_text_by_kind(fmt, &v)).map(|t| t == s).unwrap_or(false);
+            json!({"format":"ok","s":s,"r":r,"entries_agree":same})
         }
         // ------------------------------------------------------------ C03 / C09 / C10
         "pipe" | "pipe_v" | "pipe_l" => {
@@ -448,6 +467,9 @@ pub fn run(c: &Value) -> Value {
             let mut o = json!({"in_bits": fs.iter().map(|x| bits(*x)).collect::<Vec<_>>()});
             o["truth_try"] = pf(guarded(|| en::Truth::try_from_floats(fs.iter().copied()).map(|t| tv(&t))));
             o["budget_try"] = pf(guarded(|| en::Budget::try_from_floats(fs.iter().copied()).map(|b| bv(&b))));
+            // the same floats through an iterator that cannot tell its length in advance
+            o["truth_try_lazy"] = pf(guarded(|| en::Truth::try_from_floats(fs.iter().copied().filter(|_| true)).map(|t| tv(&t))));
+            o["budget_try_lazy"] = pf(guarded(|| en::Budget::try_from_floats(fs.iter().copied().filter(|_| true)).map(|b| bv(&b))));
             // panicking constructors, by arity
             let g = |i: usize| fs.get(i).copied();
             o["truth_new"] = match fs.len() {
@@ -561,7 +583,7 @@ pub fn run(c: &Value) -> Value {
             for o in c["ops"].as_array().expect("ops") {
                 let r = match s_of(o, "op") {
                     "set_name" => { let n = text_of(o, "n"); guarded(|| t.set_atom_name(&n).map_err(|e| e.to_string())) }
-                    "push" => { let cs: Vec<en::Term> = o["cs"].as_array().unwrap().iter().map(|x| term_of(x).unwrap()).collect(); guarded(|| t.push_components(cs).map_err(|e| e.to_string())) }
+                    "push" => { let cs: Vec<en::Term> = o["cs"].as_array().unwrap().iter().map(|x| term_of(x).unwrap()).collect(); if cs.len() % 2 == 1 { guarded(|| t.push_components(cs.into_iter().filter(|_| true)).map_err(|e| e.to_string())) } else { guarded(|| t.push_components(cs).map_err(|e| e.to_string())) } }
                     other => panic!("unknown mutator {other}"),
                 };
                 let ok = match r { Ok(Ok(())) => "ok", Ok(Err(_)) => "err", Err(_) => "panic" };
@@ -572,15 +594,20 @@ pub fn run(c: &Value) -> Value {
         // ------------------------------------------------------------ C11
         "ascii_out" => {
             let lf = lex_format("ascii");
-            let (s, kind) = if c.get("lv").is_some() {
+            let (s, kind, entries_agree) = if c.get("lv").is_some() {
                 let v = lnarsese_of(&c["lv"]).expect("lexical value");
-                (lf.format_narsese(&v), s_of(&c["lv"], "kind").to_string())
+                let s = lf.format_narsese(&v);
+                let same = guarded(|| lex_text_by_kind("ascii", &v)).map(|t| t == s).unwrap_or(false);
+                (s, s_of(&c["lv"], "kind").to_string(), same)
             } else {
                 let v = match guarded(|| narsese_of(&c["v"])) { Ok(Ok(v)) => v, e => return json!({"build":"fail","msg":format!("{e:?}")}) };
-                (enum_format("ascii").format_narsese(&v), s_of(&c["v"], "kind").to_string())
+                let s = enum_format("ascii").format_narsese(&v);
+                let same = guarded(|| enum_text_by_kind("ascii", &v)).map(|t| t == s).unwrap_or(false)
+                    && guarded(|| FormatTo::<_, String>::format_to(&v, enum_format("ascii"))).map(|t| t == s).unwrap_or(false);
+                (s, s_of(&c["v"], "kind").to_string(), same)
             };
             let (l, _) = lex_parse("ascii", &s);
-            json!({"s":s,"chars":s.chars().map(|c| c.to_string()).collect::<Vec<_>>(),"kind":kind,"lex":l})
+            json!({"s":s,"chars":s.chars().map(|c| c.to_string()).collect::<Vec<_>>(),"kind":kind,"lex":l,"entries_agree":entries_agree})
         }
         // ------------------------------------------------------------ beyond the listed properties (DESIGN §10)
         "options" => {
@@ -692,7 +719,8 @@ fn lifecycle(c: &Value) -> Value {
                 f @ ("reparse_ascii" | "reparse_latex" | "reparse_han") => {
                     let n = &f[8..];
                     let s = enum_format(n).format_narsese(&v);
-                    match guarded(|| enum_format(n).parse::<en::Narsese>(&s)) { Ok(Ok(x)) => (json!({"r":"reparsed","s":s}), x), _ => (json!({"r":"reparse-fail","s":s}), v) }
+                    let same = guarded(|| enum_text_by_kind(n, &v)).map(|t| t == s).unwrap_or(false);
+                    match guarded(|| enum_format(n).parse::<en::Narsese>(&s)) { Ok(Ok(x)) if same => (json!({"r":"reparsed","s":s}), x), _ => (json!({"r":"reparse-fail","s":s,"entries_agree":same}), v) }
                 }
                 other => (json!({"r":"unknown","op":other}), v),
             };
@@ -717,7 +745,8 @@ fn lifecycle(c: &Value) -> Value {
                 f @ ("reparse_ascii" | "reparse_latex" | "reparse_han") => {
                     let n = &f[8..];
                     let s = lex_format(n).format_narsese(&v);
-                    match guarded(|| lex_format(n).parse(&s)) { Ok(Ok(x)) => (json!({"r":"reparsed","s":s}), x), _ => (json!({"r":"reparse-fail","s":s}), v) }
+                    let same = guarded(|| lex_text_by_kind(n, &v)).map(|t| t == s).unwrap_or(false);
+                    match guarded(|| lex_format(n).parse(&s)) { Ok(Ok(x)) if same => (json!({"r":"reparsed","s":s}), x), _ => (json!({"r":"reparse-fail","s":s,"entries_agree":same}), v) }
                 }
                 other => (json!({"r":"unknown","op":other}), v),
             };
